@@ -1,9 +1,12 @@
 #!/bin/bash
-# seed_verify.sh <ID> <m1|m2>: confirm a seeded change in its scratch worktree /tmp/seed_<ID>:
+# seed_verify.sh <ID> <mK>: confirm a seeded change in its scratch worktree:
 #   suite passes with the change, demo fails with it, demo passes without it.
+# Worktree and agent output come from SEED_WT_PREFIX (default /tmp/seed_) and SEED_OUT_ROOT
+# (default /tmp/seedout); falls back to /verif/seeded/<ID>-<mK>.
 # Prints one line: VERIFY <ID> <m> suite=<pass|FAIL> demo_with=<fail|PASS> demo_without=<pass|FAIL>
 ID="$1"; M="$2"
-WT=/tmp/seed_$ID; OUT=/tmp/seedout/$ID/$M
+WT=${SEED_WT_PREFIX:-/tmp/seed_}$ID; OUT=${SEED_OUT_ROOT:-/tmp/seedout}/$ID/$M
+[ -d "$OUT" ] || OUT=/verif/seeded/$ID-$M
 export CARGO_NET_OFFLINE=true
 cd "$WT" || exit 2
 git checkout -q -- . ; git clean -fdq -e target
@@ -14,11 +17,13 @@ if ! git apply --check "$OUT/patch.diff" 2>/dev/null; then echo "VERIFY $ID $M p
 git apply "$OUT/patch.diff"
 suite=$(cargo test -q -p rscel -p rscel-to-sql --offline 2>&1 | grep -E '^test result' | awk '{p+=$4; f+=$6} END {print p" "f}')
 sp=$(echo $suite | cut -d' ' -f1); sf=$(echo $suite | cut -d' ' -f2)
+# a dev-dependency the demonstration needs (never part of the seeded change itself)
+[ -f "$OUT/demo_cargo.diff" ] && git apply "$OUT/demo_cargo.diff"
 cp "$OUT/seed_demo.rs" $demodir/seed_demo.rs
 with=$(cargo test -q -p $pkg --test seed_demo --offline 2>&1 | grep -E '^test result' | head -1)
-git checkout -q -- . 
+git apply -R "$OUT/patch.diff"
 without=$(cargo test -q -p $pkg --test seed_demo --offline 2>&1 | grep -E '^test result' | head -1)
-rm -f $demodir/seed_demo.rs; git clean -fdq -e target
+rm -f $demodir/seed_demo.rs; git checkout -q -- . ; git clean -fdq -e target
 s_ok=FAIL; [ "$sf" = "0" ] && [ "${sp:-0}" -ge 497 ] && s_ok=pass
 w_ok=PASS; echo "$with" | grep -q 'FAILED' && w_ok=fail
 wo_ok=FAIL; echo "$without" | grep -q 'test result: ok' && wo_ok=pass
